@@ -5,6 +5,11 @@ import re
 import time
 
 import z3
+import sys
+
+
+sys.setrecursionlimit(30000)
+
 
 from .mirparse import split_top
 from .values import (BV, Bool, UNIT, Tup, Adt, Seq, Str, Cell, Ref, Opaque, Closure, FnItem, INT_TYPES, Panic,
@@ -145,11 +150,13 @@ class Exec:
         results = []
         work = [[]]
         t0 = time.time()
+        first_path_done = False
+        self.undecided_paths = []
         while work:
-            if len(results) > self.max_paths:
-                raise Unsupported(f"more than {self.max_paths} paths")
-            if time.time() - t0 > self.timeout_s:
-                raise Unsupported("path exploration timeout")
+            if len(results) > self.max_paths or time.time() - t0 > self.timeout_s:
+                # stop here: what was explored is still decided (violations on those paths stand), the rest is not
+                self.undecided_paths.append("path exploration stopped after %d paths / %.0f s with %d prefixes unexplored" % (len(results), time.time() - t0, len(work)))
+                break
             prefix = work.pop()
             self.decisions = list(prefix)
             self.dpos = 0
@@ -164,6 +171,14 @@ class Exec:
                 results.append(("panic", str(p), list(self.pc), self.env))
             except Infeasible:
                 pass
+            except (Unsupported, Unwind) as u:
+                # this path is not decided; the others still are (a violation found on them stands, a clean result does not)
+                if first_path_done is False:
+                    raise
+                self.undecided_paths.append(str(u))
+                if len(self.undecided_paths) > 200:
+                    raise Unsupported(f"more than 200 undecidable paths, first: {self.undecided_paths[0]}")
+            first_path_done = True
         return results
 
     def sat(self, extra):
@@ -320,8 +335,8 @@ class Exec:
         raise Unsupported(f"ambiguous callee {path}: {[f.name for f in cands]}")
 
     def call_fn(self, fn, args, depth=0):
-        if depth > 40:
-            raise Unsupported("call depth > 40")
+        if depth > 300:
+            raise Unsupported("call depth > 300")
         self.encoded_fns.add(fn.name)
         locs = {}
         for i in sorted(fn.types):
@@ -445,7 +460,17 @@ class Exec:
             idx = locs[node[2]].v
             iv = z3.simplify(idx.t)
             if not z3.is_bv_value(iv):
-                raise Unsupported("symbolic index")
+                # fork over the feasible positions of a short sequence (one path per position, plus the out-of-bounds path)
+                seq = self.load(r)
+                while isinstance(seq, Ref):
+                    seq = self.load(seq)
+                n = len(seq.items) if isinstance(seq, Seq) else None
+                if n is None or n > 300:
+                    raise Unsupported("symbolic index")
+                k = self.choose([idx.t == i for i in range(n)] + [z3.UGE(idx.t, n)])
+                if k == n:
+                    raise Panic("index out of bounds")
+                return Ref(r.cell, r.path + (("i", k),))
             return Ref(r.cell, r.path + (("i", iv.as_long()),))
         raise Unsupported(str(node))
 
